@@ -986,10 +986,11 @@ pub fn check_c03(cx: &Ctx, rep: &mut Report) {
                 if let (Some(a), Some(b)) = (&st.g, &g.states[e.target].g) {
                     if a.record_state == "inactive" && !a.own_leaf && b.record_state != "inactive" {
                         let class = format!("reactivated-after-eviction:{}", b.record_state);
-                        if reported.insert(class.clone()) {
-                            let mut path = g.path_to(s);
-                            path.push(e.action);
-                            let last = abstract_trace(cx, &path).rsplit(';').next().unwrap_or("").to_string();
+                        let mut path = g.path_to(s);
+                        path.push(e.action);
+                        let last = abstract_trace(cx, &path).rsplit(';').next().unwrap_or("").to_string();
+                        // one report per (resulting state, call that did it): a recorded finding through one call must not hide another call
+                        if reported.insert(format!("{class}|{last}")) {
                             rep.finding(format!("C03|{class}|via={last}"), format!("{me} was evicted, yet the group leaves the inactive state again without a new invitation: {}", trace_labels(cx, &path).join(" ; ")), detail(cx, &path, json!({})));
                         }
                     }
@@ -1143,6 +1144,13 @@ pub fn check_c16(cx: &Ctx, rep: &mut Report) {
                 !others && processed_once && no_consent_before && kind == "original"
             };
             // was the existing group's record still the faithful mirror of its MLS state before this step?
+            if from == "active" && act == "accept" {
+                // the stored invitation still awaits an answer although the group is active: on the unchanged tree processing an
+                // invitation for a held group resets the record to pending (defects D6 / D11), so this combination has its own class
+                if st.welcome_states.get(i).map(|x| x == "pending").unwrap_or(false) {
+                    rel.push_str("|stored-invitation=pending");
+                }
+            }
             if from == "active" {
                 let genuine = st.g.as_ref().and_then(|x| x.mls.as_ref()).map(|m| w.node_of_auth(&m.authenticator).is_some()).unwrap_or(false);
                 rel.push_str(if genuine && st.g.as_ref().and_then(record_mismatch).is_none() { "|existing-group-genuine-and-record-intact=yes" } else { "|existing-group-genuine-and-record-intact=no" });
